@@ -49,7 +49,8 @@ type IPNetSpec struct {
 }
 
 type UnkExt struct {
-	Arc      int    `json:"arc"`
+	Arc      int    `json:"arc"`           // private arc 1.3.6.1.4.1.99999.<Arc> unless OID is set
+	OID      []int  `json:"oid,omitempty"` // an OID from the neighbourhood of the interpreted extensions (see neighbourOIDs)
 	Critical bool   `json:"crit,omitempty"`
 	Value    []byte `json:"val"`
 }
@@ -109,6 +110,55 @@ type ConfCase struct {
 	IssUID   []byte `json:"issuid,omitempty"`   // issuerUniqueID
 	SubUID   []byte `json:"subuid,omitempty"`   // subjectUniqueID
 	Empty    int    `json:"empty,omitempty"`    // bit set: extensions encoded with their smallest value (03 01 00, 04 00, 30 00), see emptyShapes
+}
+
+func (u UnkExt) oid() []int {
+	if len(u.OID) > 0 {
+		return u.OID
+	}
+	return []int{1, 3, 6, 1, 4, 1, 99999, u.Arc}
+}
+
+// interpretedExtOIDs: the extension types at least one of the two parsers interprets.
+var interpretedExtOIDs = [][]int{
+	{2, 5, 29, 14}, {2, 5, 29, 15}, {2, 5, 29, 17}, {2, 5, 29, 19}, {2, 5, 29, 30}, {2, 5, 29, 31}, {2, 5, 29, 32}, {2, 5, 29, 33}, {2, 5, 29, 35}, {2, 5, 29, 36}, {2, 5, 29, 37}, {2, 5, 29, 54},
+	{1, 3, 6, 1, 5, 5, 7, 1, 1}, {1, 3, 6, 1, 5, 5, 7, 1, 11}, {1, 3, 6, 1, 5, 5, 7, 1, 7}, {1, 3, 6, 1, 5, 5, 7, 1, 8}, {1, 3, 6, 1, 4, 1, 11129, 2, 4, 2},
+}
+
+// neighbourOIDs: every interpreted OID with one more arc appended, with its last arc dropped and with
+// its last arc +-1 - minus the ones that are interpreted themselves. Neither parser knows any of them, so
+// each is an unknown extension: listed raw, reported as unhandled when critical, nothing else.
+var neighbourOIDs = func() [][]int {
+	known := map[string]bool{}
+	for _, o := range interpretedExtOIDs {
+		known[oidStr(o)] = true
+	}
+	seen := map[string]bool{}
+	var out [][]int
+	add := func(o []int) {
+		if k := oidStr(o); !known[k] && !seen[k] && len(o) >= 3 {
+			seen[k] = true
+			out = append(out, append([]int{}, o...))
+		}
+	}
+	for _, o := range interpretedExtOIDs {
+		for _, extra := range []int{0, 1, 2, 7, 128} {
+			add(append(append([]int{}, o...), extra))
+		}
+		add(append(append([]int{}, o...), 1, 1))
+		add(o[:len(o)-1])
+		add(append(append([]int{}, o[:len(o)-1]...), o[len(o)-1]+1))
+		if o[len(o)-1] > 0 {
+			add(append(append([]int{}, o[:len(o)-1]...), o[len(o)-1]-1))
+		}
+	}
+	return out
+}()
+
+// plausibleValues: extension values that mean something to the interpreted neighbours.
+var plausibleValues = [][]byte{
+	derx.Octets([]byte{1, 2, 3, 4}), derx.Seq(derx.Bool(true), derx.Int64(3)), derx.Seq(), derx.BitString([]byte{0x86}, 1), derx.Seq(derx.TLV(0x80, []byte{9, 9})),
+	derx.Seq(derx.TLV(0x82, []byte("neighbour.example"))), derx.Seq(derx.OID(1, 3, 6, 1, 5, 5, 7, 3, 1)), derx.Seq(derx.Seq(derx.OID(2, 23, 140, 1, 2, 1))), derx.Null(), derx.Int64(5),
 }
 
 var attrTypes = []struct {
@@ -357,7 +407,21 @@ func genConf(t *rapid.T) ConfCase {
 		c.SCTs = append(c.SCTs, rapid.SliceOfN(rapid.Byte(), 1, 130).Draw(t, "sct"))
 	}
 	for i, n := 0, []int{0, 0, 1, 1, 2, 3}[uni(t, "unk#")%6]; i < n; i++ {
-		c.Unknown = append(c.Unknown, UnkExt{Arc: 100 + i, Critical: rapid.Bool().Draw(t, "unkcrit"), Value: rapid.SliceOfN(rapid.Byte(), 0, 20).Draw(t, "unkval")})
+		u := UnkExt{Arc: 100 + i, Critical: rapid.Bool().Draw(t, "unkcrit"), Value: rapid.SliceOfN(rapid.Byte(), 0, 20).Draw(t, "unkval")}
+		if uni(t, "unknear")%2 == 0 { // an uninterpreted OID right next to an interpreted one
+			o := neighbourOIDs[uni(t, "unkoid")%len(neighbourOIDs)]
+			dup := false
+			for _, x := range c.Unknown {
+				dup = dup || oidStr(x.OID) == oidStr(o)
+			}
+			if !dup {
+				u.OID = o
+			}
+			if uni(t, "unkplausible")%2 == 0 { // with a value that would be meaningful for the neighbour
+				u.Value = plausibleValues[uni(t, "unkpv")%len(plausibleValues)]
+			}
+		}
+		c.Unknown = append(c.Unknown, u)
 	}
 	if c.Enc == 1 {
 		c.Shuffle = rapid.IntRange(0, 1<<16).Draw(t, "shuffle")
@@ -491,7 +555,7 @@ func stdBuild(c ConfCase) ([]byte, error) {
 		t.ExtraExtensions = append(t.ExtraExtensions, stdpkix.Extension{Id: pki.OIDExtSCTList, Value: derx.Octets(sctList(c.SCTs))})
 	}
 	for _, u := range c.Unknown {
-		t.ExtraExtensions = append(t.ExtraExtensions, stdpkix.Extension{Id: []int{1, 3, 6, 1, 4, 1, 99999, u.Arc}, Critical: u.Critical, Value: u.Value})
+		t.ExtraExtensions = append(t.ExtraExtensions, stdpkix.Extension{Id: u.oid(), Critical: u.Critical, Value: u.Value})
 	}
 	parent := t
 	if !c.SelfSigned {
@@ -787,7 +851,7 @@ func pkiBuild(c ConfCase) ([]byte, error) {
 		exts = append(exts, pki.SCTList(sctList(c.SCTs)))
 	}
 	for _, u := range c.Unknown {
-		exts = append(exts, pki.Ext{OID: []int{1, 3, 6, 1, 4, 1, 99999, u.Arc}, Critical: u.Critical, Value: u.Value})
+		exts = append(exts, pki.Ext{OID: u.oid(), Critical: u.Critical, Value: u.Value})
 	}
 	for i, sh := range emptyShapes {
 		if c.Empty>>uint(i)&1 == 0 {
@@ -1151,6 +1215,17 @@ func checkConf(t *testing.T, c ConfCase) harness.Verdict {
 				}
 			}
 			v.Class("critical-san:" + kinds)
+		}
+	}
+	for _, u := range c.Unknown {
+		if len(u.OID) > 0 && !c.V1 {
+			v.Class("unknown-neighbour-oid")
+			switch {
+			case len(u.OID) > 4 && u.OID[0] == 2:
+				v.Class("unknown-neighbour:id-ce-longer")
+			case len(u.OID) == 3:
+				v.Class("unknown-neighbour:id-ce-itself")
+			}
 		}
 	}
 	if len(ref.UnhandledCriticalExtensions) > 0 {
